@@ -617,19 +617,52 @@ func init() {
 				w.unsupported("cbor.Unmarshal into %s", target.t)
 			}
 			b, ok := pt.Elem().Underlying().(*types.Basic)
-			if !ok || b.Kind() != types.Uint64 {
+			if !ok || b.Info()&types.IsInteger == 0 {
 				w.unsupported("cbor.Unmarshal into %s", target.t)
+			}
+			signed := b.Info()&types.IsUnsigned == 0
+			bits := uint8(64)
+			switch b.Kind() {
+			case types.Int8, types.Uint8:
+				bits = 8
+			case types.Int16, types.Uint16:
+				bits = 16
+			case types.Int32, types.Uint32:
+				bits = 32
 			}
 			pkg := w.eng.Prog.ImportedPackage("github.com/fxamacker/cbor/v2")
 			newDec := pkg.Func("NewByteStreamDecoder")
 			dec := w.call(fr, token.NoPos, newDec, []value{a[0]})
 			decT := types.NewPointer(pkg.Type("StreamDecoder").Object().Type())
-			m := w.lookupMethod(decT, "DecodeUint64")
+			// integers of any Go width: an unsigned target takes a CBOR unsigned
+			// integer, a signed target a CBOR unsigned or NEGATIVE integer; values
+			// that do not fit the target are an error (as in the library)
+			method := "DecodeUint64"
+			if signed {
+				method = "DecodeInt64"
+			}
+			m := w.lookupMethod(decT, method)
 			r := w.call(fr, token.NoPos, m, []value{dec}).(tuple)
 			if err := r[1].(iface); err.t != nil {
 				return err
 			}
-			store(target.v.(*value), r[0])
+			v := r[0].(T)
+			if bits < 64 {
+				tb := w.tb
+				var fits T
+				if signed {
+					lo := tb.Const(64, uint64(-(int64(1) << (bits - 1))))
+					hi := tb.Const(64, uint64((int64(1)<<(bits-1))-1))
+					fits = tb.BAnd(tb.Sle(lo, v), tb.Sle(v, hi))
+				} else {
+					fits = tb.Ule(v, tb.Const(64, (uint64(1)<<bits)-1))
+				}
+				if !w.branch(fits) {
+					return w.mkErrorString("<cbor: cannot unmarshal integer: value does not fit the target type>")
+				}
+				v = tb.Trunc(v, bits)
+			}
+			store(target.v.(*value), v)
 			return iface{}
 		},
 		"errors.As":           func(fr *frame, a []value) value { return fr.w.errorsAs(fr, a) },
